@@ -512,8 +512,8 @@ def run_part(tier, seed, ev, vd):
         '.itp: atoms are numbered consecutively from 1 in file order (GROMACS requires it); files that are not, molecule types '
         'without / with two name lines, lines of the wrong shape that happen to parse, unknown sections without content and atom '
         'lines with more than 8 columns are generated but not compared (outcome "unspecified" in spec/ItpFile.tla)',
-        '.itp: the atom-column table (AtomCols) is the one the reader documents (virtual_sites1 has one atom column there, '
-        'GROMACS writes two atoms); charge and mass texts are converted with float() for the comparison',
+        '.itp: the atom-column table (AtomCols) is the GROMACS one (virtual_sites1: site and constructing atom; the reader listed '
+        'one atom column until D26 was fixed); charge and mass texts are converted with float() for the comparison',
         '.itp: the reader creates no edges; the projection requires zero edges']
     t0, times = time.time(), {}
     # 1. every extension of a small molecule type
